@@ -175,9 +175,8 @@ static int base_header(int kind, uint8_t *buf)
 		rf_wavheader_init(&h, 8000, 1, RF_WAVHEADER_S16LE);
 		h.fmt_chunk_size = 18; h.chunk_size = 4 + 8 + 18 + 8;
 		break;
-	case 6: /* PCM with a fact chunk (legal, though init never produces it) */
+	case 6: /* PCM with a fact chunk (legal, though init never produces it): spliced into the byte image below */
 		rf_wavheader_init(&h, 22050, 2, RF_WAVHEADER_S16LE);
-		memcpy(h.fact_chunk_id, "fact", 4); h.fact_chunk_size = 12; h.sample_length = 9; h.chunk_size += 12;
 		break;
 	case 5: /* 21-byte fmt chunk: cb_size 3 and three ignored bytes */
 		rf_wavheader_init(&h, 8000, 1, RF_WAVHEADER_S16LE);
@@ -187,6 +186,12 @@ static int base_header(int kind, uint8_t *buf)
 	memset(buf, 0, 256);
 	int n = rf_wavheader_encode(&h, buf, 256);
 	if (kind == 5) { buf[38] = 0xAA; buf[39] = 0xBB; buf[40] = 0xCC; }   /* the ignored bytes are not zero on the wire */
+	if (kind == 6 && n == 44) {          /* the header is written by hand, not by the encoder under test */
+		memmove(buf + 48, buf + 36, 8);
+		memcpy(buf + 36, "fact", 4); buf[40] = 12; buf[41] = buf[42] = buf[43] = 0; buf[44] = 9; buf[45] = buf[46] = buf[47] = 0;
+		buf[4] += 12;
+		n = 56;
+	}
 	return n;
 }
 static void put32(uint8_t *p, uint32_t v) { p[0] = v; p[1] = v >> 8; p[2] = v >> 16; p[3] = v >> 24; }
